@@ -215,6 +215,8 @@ func externalReadOnly(callee *ssa.Function, com *ssa.CallCommon) (bool, string) 
 		return true, "synchronisation primitive"
 	case pkg == "github.com/rs/zerolog":
 		return true, "zerolog loggers are safe for concurrent use"
+	case strings.HasPrefix(pkg, "github.com/prometheus/client_golang/prometheus"):
+		return true, "prometheus collectors (Counter/Gauge/Histogram and their vectors) are documented safe for concurrent use"
 	case pkg == "github.com/consensys/gnark/backend/groth16" && (name == "Prove" || name == "Verify"):
 		return true, "groth16.Prove/Verify read the keys and constraint system (trusted base)"
 	case pkg == "fmt" || pkg == "errors" || pkg == "strconv":
